@@ -58,7 +58,10 @@ def _name_calls(fn, name):
     return [n for n in ast.walk(fn) if isinstance(n, ast.Call) and isinstance(n.func, ast.Name) and n.func.id == name]
 
 
-def emit(repo):
+def values(repo):
+    """(dict of the extracted constants, problems): fields, date_format, delimiter_write, delimiter_read, pred_sep_write,
+    pred_sep_read, header_strip, bool_true, task_reserved - None for what could not be located.  Used by emit() for
+    gen/Consts.v and by harness/props/c13.py for the files it derives (the same extraction, on every run)."""
     problems = []
     with open(os.path.join(repo, 'src/pjplan/io/csv_io.py'), encoding='utf-8') as f:
         tree = ast.parse(f.read())
@@ -189,6 +192,17 @@ def emit(repo):
                 problems.append('Task.__init__ has no min_start parameter')
     if reserved is None:
         problems.append('class Task not found')
+
+    vals.update(fields=fields, date_format=fmt, delimiter_write=delim_w, delimiter_read=delim_r, pred_sep_write=join_w,
+                pred_sep_read=split_r, header_strip=strip, bool_true=true_r, task_reserved=reserved)
+    return vals, problems
+
+
+def emit(repo):
+    vals, problems = values(repo)
+    fields, fmt, delim_w, delim_r = vals['fields'], vals['date_format'], vals['delimiter_write'], vals['delimiter_read']
+    join_w, split_r, strip, true_r, reserved = (vals['pred_sep_write'], vals['pred_sep_read'], vals['header_strip'],
+                                                vals['bool_true'], vals['task_reserved'])
 
     def text_def(name, s, what):
         return '(* %s: %s *)\nDefinition %s : list N := %s.\n' % (what, show(s or ''), name, cps(s or ''))
